@@ -105,6 +105,34 @@ def run(chk, replay=None):
                     hists[key].append([int((d < 5.0).sum()), int((d >= 5.0).sum())])
         return out, hists
 
+    def evaluate_shared(cats_abs, obs_abs, src, order):
+        """the same tests, one after another on ONE forecast object (the order rotates): evaluating must not change what a
+        later evaluation sees"""
+        fcst = build_forecast(world, {'src': src, 'filt': False, 'spat': False}, to_cats(cats_abs), path)
+        out = {}
+        for key, fn, kw in order:
+            obs = obs_catalog(obs_abs)
+            with contextlib.redirect_stdout(io.StringIO()):
+                out[key] = guarded_timeout(30, fn, fcst, obs, **kw)
+            chk.count()
+        return out
+
+    def same_result(a, b):
+        if isinstance(a, Raised) or isinstance(b, Raised):
+            return isinstance(a, Raised) and isinstance(b, Raised)
+        if a is None or b is None:
+            return a is None and b is None
+
+        def norm(x):
+            if x is None:
+                return None
+            if isinstance(x, (tuple, list, numpy.ndarray)):
+                return [norm(y) for y in x]
+            x = float(x)
+            return 'nan' if x != x else x
+        return (a.status == b.status and norm(a.observed_statistic) == norm(b.observed_statistic) and
+                norm(a.test_distribution) == norm(b.test_distribution) and norm(a.quantile) == norm(b.quantile))
+
     def quantile_rule(dist, stat):
         n = len(dist)
         return (sum(1 for x in dist if x >= stat) / n, sum(1 for x in dist if x <= stat) / n)
@@ -159,6 +187,18 @@ def run(chk, replay=None):
         got, hists = evaluate(cats_abs, obs_abs, src)
         records.append({'cats': cats_abs, 'obs': obs_abs, 'rm': hists['rm'], 'mll': hists['mll']})
         runs.append((got, src))
+        if len(records) % 4 == 1:
+            k = len(records) % len(TESTS)
+            order = TESTS[k:] + TESTS[:k]
+            got2 = evaluate_shared(cats_abs, obs_abs, src, order)
+            for pos, (key, _fn, _kw) in enumerate(order):
+                if not same_result(got[key], got2[key]):
+                    chk.violation('sequence:%s differs after %s on the same forecast object' % (key, '+'.join(o[0] for o in order[:pos]) or 'nothing'),
+                                  {'cats': cats_abs, 'obs': obs_abs, 'src': src, 'order': [o[0] for o in order],
+                                   'fresh': repr(getattr(got[key], 'observed_statistic', got[key])),
+                                   'in_sequence': repr(getattr(got2[key], 'observed_statistic', got2[key]))})
+                    break
+            chk.nontrivial('seq|%s|%s|%d' % (cats_abs, obs_abs, k))
         tot_c = {c: sum(1 for cat in cats_abs for e in cat if e[0] == c) for c in (1, 2, 3)}
         if any(len(c) == 0 for c in cats_abs) or len(obs_abs) == 0 or any(tot_c[e[0]] == 0 for e in obs_abs) or \
                 len(obs_abs) != len({tuple(e) for e in obs_abs}):
